@@ -134,6 +134,7 @@ fn maker(cfg: &Value) -> Option<Maker> {
 }
 
 fn main() {
+    ops::check_try_with_layouts();
     std::panic::set_hook(Box::new(|_| {}));
     let args: Vec<String> = std::env::args().collect();
     if args.len() >= 2 && args[1] == "--list-cfgs" {
